@@ -2,7 +2,7 @@
 From Coq Require Import ZArith Reals List Lia Lra.
 From Flocq Require Import Core BinarySingleNaN.
 From GCL Require Proofs.TablesOk.
-From GCL Require Import Base.F64 Base.F64Facts Model.Measure Model.Limits Proofs.VegasSafe Proofs.AimdProofs Proofs.GradSafe Proofs.Grad2Safe.
+From GCL Require Import Base.F64 Base.F64Facts Model.Measure Model.Limits Proofs.VegasSafe Proofs.AimdProofs Proofs.GradSafe Proofs.Grad2Safe Proofs.WindowedSafe.
 Import ListNotations.
 
 (* AIMD: for every sample list the limit stays >= 1 and <= initial + (#samples) * increase
@@ -38,6 +38,15 @@ Theorem C04_gradient2_safe g Mx samples : G2Inv g Mx -> Forall gsample_ok sample
   G2Inv g' Mx /\ (h_min g' <= grad2_est g' <= Mx)%Z.
 Proof. exact (grad2_run_safe g Mx samples). Qed.
 Print Assumptions C04_gradient2_safe.
+
+(* The windowed wrapper: for every raw sample list (RTTs in [0,B], in-flight < 2^31, any drop flags, start times and oracle draws) whose
+   RTT sum cannot overflow int64, no step panics (the window average never divides by zero), the delegate only ever sees valid
+   window aggregates, and a Vegas / Gradient / Gradient2 delegate keeps its safety invariant and an in-bounds reported estimate. *)
+Theorem C04_windowed_safe B M l n w : (0 <= B <= 2^62)%Z -> ((n + Z.of_nat (length l)) * B < 2^63)%Z -> (0 <= n)%Z ->
+  AInv (wd_inner w) M -> WinInv B n (wd_win w) -> Forall (raw_ok B) l ->
+  exists w', windowed_run w l = Some w' /\ AInv (wd_inner w') M /\ est_ok (wd_inner w') M.
+Proof. exact (windowed_run_safe B M l n w). Qed.
+Print Assumptions C04_windowed_safe.
 
 (* non-vacuity: the state built by NewDefaultVegasLimit (initial 20, max 1000, smoothing 1.0) satisfies the invariant *)
 Example C04_vegas_default_ok jit : VInv (vegas_init (-1) (-1) (-1) (of_int (-1)) jit) 1000.
